@@ -104,6 +104,34 @@ Theorem C02_source_add_nli : forall x c, g_add_nli x c = add_nli x c.
 Proof. exact Proofs.SIGen.gen_add_nli. Qed.
 Print Assumptions C02_source_add_nli.
 
+(* ---- second tie, element side: g_program_<kind> is the list of SpectralInformation primitives that the propagate /
+        __call__ body of the kind applies in gnpy/core/elements.py (extracted on every run, (true, k) = optional);
+        g_variants expands the optional ones.  The code's programs are the model's kind programs, hence the clause of the
+        statement for each kind holds of every history of updates that follows the code's program ---- *)
+Theorem C02_source_program_roadm : forallb (prog_kinds_okb KRoadm) (g_variants g_program_roadm) = true.
+Proof. exact Proofs.SIGen.gen_program_roadm. Qed.
+Print Assumptions C02_source_program_roadm.
+Theorem C02_source_program_fused : forallb (prog_kinds_okb KFused) (g_variants g_program_fused) = true.
+Proof. exact Proofs.SIGen.gen_program_fused. Qed.
+Print Assumptions C02_source_program_fused.
+Theorem C02_source_program_fiber : forall l, prog_kinds_okb KFiber l = true <-> In l (g_variants g_program_fiber).
+Proof. exact Proofs.SIGen.gen_program_fiber_iff. Qed.
+Print Assumptions C02_source_program_fiber.
+Theorem C02_source_program_raman : forall l, prog_kinds_okb KRaman l = true <-> In l (g_variants g_program_raman).
+Proof. exact Proofs.SIGen.gen_program_raman_iff. Qed.
+Print Assumptions C02_source_program_raman.
+Theorem C02_source_program_edfa : forall l, prog_kinds_okb KEdfa l = true <-> In l (g_variants g_program_edfa).
+Proof. exact Proofs.SIGen.gen_program_edfa_iff. Qed.
+Print Assumptions C02_source_program_edfa.
+Theorem C02_source_program_trx : forall l, prog_kinds_okb KTrx l = true <-> In l (g_variants g_program_trx).
+Proof. exact Proofs.SIGen.gen_program_trx_iff. Qed.
+Print Assumptions C02_source_program_trx.
+Theorem C02_source_program_quality : forall k p, forallb (prog_kinds_okb k) (g_variants p) = true ->
+  forall l, In l (g_variants p) -> forall ops c, map ckind_of ops = l -> Inv c -> WfOps c ops ->
+  elem_claim k (crun ops c) c.
+Proof. exact Proofs.SIGen.source_program_quality. Qed.
+Print Assumptions C02_source_program_quality.
+
 (* ---- non-vacuity ---- *)
 Definition ex_c : chan := mkC 193000000000000 50000000000 32000000000 (1#1000) (9#10) (1#20) (1#20).
 Definition ex_pth : path :=
